@@ -17,7 +17,8 @@ A3 = Schema('A3', [
     Opt('int', 'i', '', 5, 'w'), Opt('int', 'il', 'L', [b'1', b'2'], 'w'), Opt('str', 's', '', b'd', 'w'), Opt('str', 'sl', 'L', None, 'w'),
     Opt('float', 'f', '', 1.5, 'w'), Opt('float', 'fl', 'L', [b'1.5'], 'w'), Opt('bool', 'b', '', False), Opt('bool', 'bl', 'L', [b'true']),
     Opt('int', 'n', 'N', None, 'w'), Opt('sec', 'mt', 'MT', sub=[Opt('int', 'x', '', 1)]),
-    Opt('ptr', 'p', '', None, 'pf'), Opt('ptr', 'pl', 'L', None, 'pf'), Opt('int', 'ic', '', 5, 'p'), Opt('str', 'scl', 'L', [b'a'], 'p')])      # values made by a parse callback
+    Opt('ptr', 'p', '', None, 'pf'), Opt('ptr', 'pl', 'L', None, 'pf'), Opt('int', 'ic', '', 5, 'p'), Opt('str', 'scl', 'L', [b'a'], 'p'),
+    Opt('int', 'si', 'S', None, 'w'), Opt('str', 'ss', 'S', None, 'w')])      # "simple" options: the value lives in the caller's variable      # values made by a parse callback
 
 P = lambda text: ('parse', text)
 
@@ -45,6 +46,10 @@ def builders(name):
         return [('set', 'bool', b'b', 1, None), ('setcomment', b'b', b'c'), P(b'b = yes')]
     if name == 's':
         return [('set', 'str', b's', b'v', None), ('setcomment', b's', b'c'), P(b's = q'), ('setmulti', b's', [b'm'])]
+    if name == 'si':
+        return [('set', 'int', b'si', 7, None), P(b'si = 9')]
+    if name == 'ss':
+        return [('set', 'str', b'ss', b'v', None), P(b'ss = q')]
     if name == 'p':
         return [('setopt', b'p', b'v'), ('setcomment', b'p', b'c'), P(b'p = w')]
     if name == 'pl':
@@ -81,7 +86,7 @@ def refusals(name):
         R.append(('bulk-set-empty', 0, ('setmulti', nm, []), None))
         R.append(('section-call-on-value', 0, ('addtsec', nm, b'a'), None))
         return R
-    kind = {'i': 'int', 'il': 'int', 'n': 'int', 'f': 'float', 'fl': 'float', 'b': 'bool', 'bl': 'bool', 's': 'str', 'sl': 'str'}.get(name)
+    kind = {'i': 'int', 'il': 'int', 'n': 'int', 'f': 'float', 'fl': 'float', 'b': 'bool', 'bl': 'bool', 's': 'str', 'sl': 'str', 'si': 'int', 'ss': 'str'}.get(name)
     val = {'int': 7, 'float': 2.5, 'bool': 1, 'str': b'v'}.get(kind)
     nm = name.encode()
     lst = name in ('il', 'fl', 'bl', 'sl')
@@ -211,7 +216,7 @@ def main():
     depth = 4 if quick else 5
     shards = []
     total_refusals = 0
-    for name in ('i', 'il', 'n', 'f', 'fl', 'b', 'bl', 's', 'sl', 'mt', 'p', 'pl', 'ic', 'scl'):
+    for name in ('i', 'il', 'n', 'f', 'fl', 'b', 'bl', 's', 'sl', 'mt', 'p', 'pl', 'ic', 'scl', 'si', 'ss'):
         B = builders(name)
         total_refusals += len(refusals(name))
         hists = [()]
@@ -220,7 +225,7 @@ def main():
         for ch in engine.chunks(hists, 6):
             shards.append((name, ch, ck.deadline))
     ck.cov['refusing_calls'] = total_refusals
-    engine.phase(ck, 'option states built by <= %d operations x refusing calls' % depth, shard, shards, options=14)
+    engine.phase(ck, 'option states built by <= %d operations x refusing calls' % depth, shard, shards, options=16)
     ck.assumptions = ['option states are those reachable by <= %d builder operations (API calls and parses) per option' % depth,
                       'a rejected *parse* is not a refused update in the sense of this property and is not checked here']
     ck.finish('option state (history of builder ops) x refusing call (bulk set with the bad element at every position, veto, wrong type, '
